@@ -60,6 +60,10 @@ def payload_objects(ctx) -> List[Dict[str, Any]]:
                                   {"deep": gen.nest({"leaf": None}, 100, rng)},
                                   # ... and deeper ones, still inside what both validation backends represent
                                   {"deep": gen.nest({"leaf": None}, 350, rng)}, {"deep": gen.nest({"leaf": 1}, 600, rng)}]
+    # member names that mean something to the implementation (Python names of aliased fields, envelope member names) are
+    # ordinary member names inside a payload
+    objs += [{"meta": 0}, {"meta": None, "x": 1}, {"meta": {"trace": "abc"}}, {"meta": {"a": 1}, "_meta": {"b": 2}}, {"schema_": {"t": 1}, "schema": None},
+             {"jsonrpc": "1.0", "id": "inner", "method": "m", "result": 1, "error": None, "params": []}]
     for v in vals:
         objs.append({"v": v})
     for k in gen.KEYS:
